@@ -115,6 +115,12 @@ func scenariosFor(prop string) []scn {
 			// a batching destination that confirms the writes AROUND one it never confirms, in one response: [ack(k-1), ack(k+1)]
 			both(flowParams{Sources: 1, Records: 3, Batch: 1, Dests: 1, AckMenu: []string{"ok", "defer", "skip"}, Stop: ""}, 2, 3)
 		}
+		if prop == "C04" || prop == "C02" {
+			// the transport fails transiently while the engine sends an acknowledgment to the source plugin - also during the
+			// drain of a graceful stop, when several acknowledgments are released at once: the engine retries, nothing is skipped
+			both(flowParams{Sources: 1, Records: 3, Batch: 1, Dests: 1, AckMenu: onlyOK, AckSendFaults: true, Stop: "stopwait"}, 1, 2)
+			both(flowParams{Sources: 1, Records: 3, Batch: 1, Dests: 1, AckMenu: onlyOK, AckSendFaults: true, Bundle: 2}, 1, 2)
+		}
 		if prop == "C04" {
 			// (C04 only: its oracle speaks of source acks and positions; the piece bookkeeping of the other properties'
 			// oracles knows one level of splitting)
